@@ -29,6 +29,7 @@ BindFails(e) ==
   IN
   (IF s.res = "panic" \/ v.res = "panic" THEN {"panic"} ELSE {})
   \cup (IF s.res # "ok" THEN {"countersigning-a-signed-parent-fails"} ELSE {})
+  \cup (IF s.res = "ok" /\ e.obs[4].res # "ok" THEN {"fresh-countersignature-does-not-verify"} ELSE {})
   \cup (IF s.res = "ok" /\ (Len(sc) # 1 \/ sc[1].content # signed) THEN {"countersigner-input-is-not-the-countersign-structure"} ELSE {})
   \cup (IF ~Usable(e.pk, par1) THEN
           (IF v.res = "ok" \/ Len(vc) > 0 THEN {"payload-less-parent-not-refused"} ELSE {})
